@@ -169,7 +169,16 @@ static int ftw_cb(const char *path, const struct stat *sb, int flag, struct FTW 
   char line[8300]; uint64_t h = 1469598103934665603ull;
   if (flag == FTW_F) {
     FILE *fp = fopen(path, "rb");
-    if (fp) { unsigned char b[65536]; size_t n; while ((n = fread(b, 1, sizeof b, fp)) > 0) h = fnv(b, n, h); fclose(fp); }
+    if (fp) {
+      unsigned char b[65536]; size_t n;
+      if (strstr(path, "format")) {
+        /* format fragments carry a "# Written on <date>" comment: hash everything but that line */
+        char ln[65536];
+        while (fgets(ln, sizeof ln, fp)) if (strncmp(ln, "# Written on ", 13)) h = fnv((unsigned char *)ln, strlen(ln), h);
+      } else
+        while ((n = fread(b, 1, sizeof b, fp)) > 0) h = fnv(b, n, h);
+      fclose(fp);
+    }
     snprintf(line, sizeof line, "f %s %lld %llx", path + strlen(workdir), (long long)sb->st_size, (unsigned long long)h);
   } else if (flag == FTW_SL) {
     char tgt[4096]; ssize_t n = readlink(path, tgt, sizeof tgt - 1); if (n < 0) n = 0; tgt[n] = 0;
